@@ -146,6 +146,8 @@ def _fresh_locals(fn):
     objects the function itself created"""
     fresh = set()
     for n in _own_nodes(fn):
+        if isinstance(n, ast.AnnAssign) and isinstance(n.target, ast.Name) and n.value is not None:
+            n = ast.Assign(targets=[n.target], value=n.value)  # `x: T = deque()` binds like `x = deque()`
         if isinstance(n, ast.Assign) and len(n.targets) == 1 and isinstance(n.targets[0], ast.Name):
             v = n.value
             if isinstance(v, (ast.Dict, ast.List, ast.Set, ast.ListComp, ast.DictComp, ast.SetComp, ast.Tuple)):
